@@ -115,6 +115,7 @@ type FuncContract struct {
 	EntryGhost []GhostUpdate
 	Pure       bool
 	Holds      []string
+	Locks      []string // "param.mu": mutexes this function acquires and releases internally
 	Keeps      []string // types whose heap components opaque callees of this function cannot reach (trusted)
 	MayPanic   bool
 	Line       int
@@ -191,7 +192,7 @@ func parseContractFile(path, pkg string) (*ContractFile, error) {
 	// join continuation lines: a line that does not start with a keyword continues the previous one
 	kw := map[string]bool{"func": true, "requires": true, "ensures": true, "assigns": true, "ghost": true, "ghostparam": true,
 		"loop": true, "call": true, "trusted": true, "pred": true, "lemma": true, "pure": true, "maypanic": true,
-		"guarded_by": true, "return": true, "note": true, "entry": true, "upred": true, "holds": true, "keeps": true, "assume": true, "nonnil": true, "readonly": true}
+		"guarded_by": true, "return": true, "note": true, "entry": true, "upred": true, "holds": true, "keeps": true, "locks": true, "assume": true, "nonnil": true, "readonly": true}
 	var joined []rawLine
 	for _, r := range raws {
 		first := r.text
@@ -275,6 +276,11 @@ func parseContractFile(path, pkg string) (*ContractFile, error) {
 					cur.Keeps = append(cur.Keeps, a)
 				}
 			}
+		case "locks":
+			if cur == nil {
+				return nil, fail(fmt.Errorf("clause outside func"))
+			}
+			cur.Locks = append(cur.Locks, strings.TrimSpace(rest))
 		case "holds":
 			if cur == nil {
 				return nil, fail(fmt.Errorf("clause outside func"))
